@@ -488,6 +488,7 @@ THEOREMS["C04"] = [
     "Pest.C04.atomic_no_trivia", "Pest.C04.rule_atomicity", "Pest.C04.rule_restores_atomicity",
     "Pest.C04.atomic_rule_single_pair", "Pest.C04.visible_spec", "Pest.C04.compound_keeps_children",
     "Pest.C04.trivia_pairs_where_matched",
+    "Pest.Tables.modifier_bits_match", "Pest.Tables.modifier_symbols_match", "Pest.Tables.default_passes_match",
 ]
 THEOREMS["C05"] = [
     "Pest.C05.push_spec", "Pest.C05.push_literal_spec", "Pest.C05.peek_spec", "Pest.C05.pop_spec", "Pest.C05.drop_spec",
@@ -839,6 +840,8 @@ def replay(out: Outcome, payload: dict) -> None:
 def run_prop(out: Outcome, level_when_proved: str = "proof") -> None:
     prop = out.prop
     thorough = out.tier == "thorough"
+    from export import export_core
+    export_core()                       # regenerate the tables the theorems mention from /repo
     info = proof_stage(out, prop, THEOREMS[prop]) if THEOREMS.get(prop) else None
     if info is None:
         from common import lake_build
